@@ -403,12 +403,16 @@ func sigSelfLoose(c *x509.Certificate) bool {
 // absChain builds the abstract input for a chain: certificate records, the strict signature
 // relation over all pairs, and the loose self-signature set.
 func absChain(chain []*x509.Certificate) map[string]any {
+	return absChainWith(chain, &interner{})
+}
+
+// absChainWith: as absChain, with certificate ids taken from a shared interner of DER bytes
+func absChainWith(chain []*x509.Certificate, ders *interner) map[string]any {
 	names := &interner{}
 	certs := []any{}
 	sig := [][]int{}
 	self := []int{}
 	// identical DER => identical id
-	ders := &interner{}
 	ids := make([]int, len(chain))
 	for i, c := range chain {
 		ids[i] = ders.id(c.Raw)
